@@ -305,16 +305,23 @@ def addHiding (look : Term → Except Err F) : List F → List (MVPoly F) → Ex
       | .error e => .error e
       | .ok xs => .ok ((w + x) :: xs)
 
+/-- `witnesses.resize(ck.num_vars, P::zero())`: truncate or pad with zero polynomials -/
+def resizeTo (n : Nat) (ws : List (MVPoly F)) : List (MVPoly F) :=
+  ws.take n ++ List.replicate (n - ws.length) []
+
 /-- the part of `open` after the challenge combination; `nvp`, `nvr` are `p.num_vars()` and
-`r.blinding_polynomial.num_vars()` of the combined polynomials -/
+`r.blinding_polynomial.num_vars()` of the combined polynomials.  Both quotient lists are resized to
+one entry per variable of the key (a polynomial declared over fewer variables has zero quotients
+for the remaining ones). -/
 def openCombined (ck : CK F) (nvp nvr : Nat) (p r : MVPoly F) (z : List F) :
     Except Err (Proof F) :=
-  match msmAll (lookG ck.powersOfG) (divideAtPoint nvp p z) with
+  match msmAll (lookG ck.powersOfG) (resizeTo ck.numVars (divideAtPoint nvp p z)) with
   | .error e => .error e
   | .ok w =>
     if isZeroMV r then .ok ⟨w, none⟩
     else
-      match addHiding (gammaBase ck.gammaG ck.powersOfGammaG) w (divideAtPoint nvr r z) with
+      match addHiding (gammaBase ck.gammaG ck.powersOfGammaG) w
+          (resizeTo ck.numVars (divideAtPoint nvr r z)) with
       | .error e => .error e
       | .ok w' =>
         if z.length < nvr then .error .abort   -- `evaluate` asserts `point.len() >= num_vars`
@@ -401,6 +408,19 @@ def batchDefect (vk : VK F) (cs : List F) (zs : List (List F)) (vs : List F) (π
     | .ok (tc, tw, gm, ggm) =>
       .ok (twSum vk.betaH 0 tw + (tc - vk.g * gm - vk.gammaG * ggm) * vk.h)
 
+/-- `Marlin::combine_and_normalize` in scalar form, the grouping by point label (sorted) already
+done: for each group `(commitments, values)` in order, one `accumulate` on the shared sponge.
+Returns the combined commitments, the combined values and the unused challenges. -/
+def combineGroups : List (List F × List F) → List F → Except Err (List F × List F × List F)
+  | [], ξs => .ok ([], [], ξs)
+  | grp :: gs, ξs =>
+    match accumulate 0 0 grp.1 grp.2 ξs with
+    | .error e => .error e
+    | .ok a =>
+      match combineGroups gs a.2.2 with
+      | .error e => .error e
+      | .ok r => .ok (a.1 :: r.1, a.2.1 :: r.2.1, r.2.2)
+
 /-- `MarlinPST13::batch_check` on the per-point combined commitments / values;
 `rs` = the verifier's 128-bit randomizers (the first proof uses 1). -/
 def batchCheck (vk : VK F) (cs : List F) (zs : List (List F)) (vs : List F) (πs : List (Proof F))
@@ -408,6 +428,14 @@ def batchCheck (vk : VK F) (cs : List F) (zs : List (List F)) (vs : List F) (πs
   match batchDefect vk cs zs vs πs rs with
   | .error e => .error e
   | .ok d => .ok (decide (d = 0))
+
+/-- `MarlinPST13::batch_check` from the grouped query set: combine per point label, then the
+randomizer-weighted pairing check. -/
+def batchCheckGroups (vk : VK F) (groups : List (List F × List F)) (zs : List (List F))
+    (πs : List (Proof F)) (ξs rs : List F) : Except Err Bool :=
+  match combineGroups groups ξs with
+  | .error e => .error e
+  | .ok c => batchCheck vk c.1 zs c.2.1 πs rs
 
 end Dec
 end PST
